@@ -243,6 +243,15 @@ class World:
                     todo.insert(rng_.choice([0, 1, 1]), (u, du))
             for dn, dc in todo:
                 self.must(self.x("owner", self.factory, {"add_native_token_decimals": {"denom": dn, "decimals": dc}}))
+        # a bank denom spelled exactly like a traded cw20's address may be registered too (another asset altogether):
+        # nothing about the token or its pairs may ever follow that denom's decimals
+        self.addr_dec = {}
+        for t in self.tokens:
+            if t[1] in self.addr_denoms and rng_.random() < 0.5:
+                du = rng_.choice([x for x in (0, 3, 9, 12, 18) if x != self.decimals[t[1]]])
+                self.must(self.x_bank("owner", self.factory, [[t[1], "1"]]))
+                self.must(self.x("owner", self.factory, {"add_native_token_decimals": {"denom": t[1], "decimals": du}}))
+                self.addr_dec[t[1]] = du
         # pairs
         self.pairs = []
         plan = pair_plan or self._default_plan(rng_)
@@ -392,6 +401,9 @@ class World:
         if op["kind"] == "add_decimals" and res["r"] == "ok":
             # the TRUE decimals of a native denom are what the owner registered last (not what a pair says about itself)
             dn, dec = op["sem"]["denom"], op["sem"]["decimals"]
+            if dn in self.addr_denoms:
+                self.addr_dec[dn] = dec         # (a denom spelled like an address: no pair of this world trades it)
+                return Step(op, pre, post, res, resps[:-1], self.nstep)
             self.decimals[dn] = dec
             for p in self.pairs:
                 for i in (0, 1):
